@@ -10,6 +10,9 @@ fn unhex(s: &str) -> Vec<u8> {
     }
     (0..s.len() / 2).map(|i| u8::from_str_radix(&s[2 * i..2 * i + 2], 16).unwrap()).collect()
 }
+fn hx(b: &[u8]) -> String {
+    b.iter().map(|x| format!("{:02x}", x)).collect()
+}
 fn hex(b: &[u8]) -> String {
     if b.is_empty() {
         return "-".to_string();
@@ -39,6 +42,7 @@ fn main() {
     let mut lookups: Vec<(Vec<u8>, u64)> = vec![];
     let mut block_size = 4096usize;
     let mut dbops: Vec<api::DbOp> = vec![];
+    let mut moves = "nnpnppnnnpnpp".to_string();
     for l in &lines {
         let t: Vec<&str> = l.split_whitespace().collect();
         if t.is_empty() {
@@ -59,12 +63,14 @@ fn main() {
                 "delete" => dbops.push(api::DbOp::Delete(unhex(t[2]))),
                 "flush" => dbops.push(api::DbOp::Flush),
                 "compact" => dbops.push(api::DbOp::CompactAll),
+                "snapshot" => dbops.push(api::DbOp::Snapshot),
                 "reopen" => dbops.push(api::DbOp::Reopen(t[2] == "reuse")),
                 _ => panic!("bad db op"),
             },
             "entry" => entries.push((unhex(t[1]), t[2].parse().unwrap(), t[3].parse().unwrap(), unhex(t[4]))),
             "lookup" => lookups.push((unhex(t[1]), t[2].parse().unwrap())),
             "block_size" => block_size = t[1].parse().unwrap(),
+            "moves" => moves = t[1].to_string(),
             "file" => files.push((
                 api::ikey(&unhex(t[1]), t[2].parse().unwrap(), 1),
                 api::ikey(&unhex(t[3]), t[4].parse().unwrap(), 1),
@@ -131,6 +137,58 @@ fn main() {
             }
             if bad.is_empty() { println!("REPLAY holds oracle=db_history keys={}", keys.len()); }
             else { println!("REPLAY violated oracle=db_history {}", bad.join("; ")); }
+        }
+        // every read view (each snapshot and the latest state) of the real DB at the end of a
+        // history - get, forward scan, backward scan, seeks, zig-zag cursor walk - vs a sorted map
+        // frozen at the moment the view was taken (C03, C04, C07)
+        "db_views" => {
+            type M = std::collections::BTreeMap<Vec<u8>, Option<Vec<u8>>>;
+            let mut model: M = Default::default();
+            let mut frozen: Vec<(usize, M)> = vec![];
+            let mut allkeys: std::collections::BTreeSet<Vec<u8>> = Default::default();
+            for (i, op) in dbops.iter().enumerate() {
+                match op {
+                    api::DbOp::Put(k, v) => { model.insert(k.clone(), Some(v.clone())); allkeys.insert(k.clone()); }
+                    api::DbOp::Delete(k) => { model.insert(k.clone(), None); allkeys.insert(k.clone()); }
+                    api::DbOp::Snapshot => frozen.push((i, model.clone())),
+                    api::DbOp::Reopen(_) => frozen.clear(),
+                    _ => {}
+                }
+            }
+            // keys of interest: every key written, plus a key just above each (seek targets in between)
+            let mut keys: Vec<Vec<u8>> = vec![];
+            for k in &allkeys { keys.push(k.clone()); let mut k2 = k.clone(); k2.push(0); keys.push(k2); }
+            keys.push(vec![]);
+            let views = api::run_views(&dbops, &keys, &moves);
+            let mut bad = vec![];
+            for v in &views {
+                let m: &M = match v.taken_at { Some(i) => &frozen.iter().find(|(j, _)| *j == i).unwrap().1, None => &model };
+                let name = match v.taken_at { Some(i) => format!("snapshot@op{}", i), None => "latest".to_string() };
+                let vis: Vec<(Vec<u8>, Vec<u8>)> = m.iter().filter_map(|(k, v)| v.as_ref().map(|v| (k.clone(), v.clone()))).collect();
+                for (k, a) in keys.iter().zip(v.gets.iter()) {
+                    let e = match m.get(k) { Some(Some(val)) => format!("value:{}", hx(val)), _ => "notfound".to_string() };
+                    if *a != e { bad.push(format!("{}: get({}) returned {} expected {}", name, hex(k), a, e)); }
+                }
+                let show = |l: &Vec<(Vec<u8>, Vec<u8>)>| l.iter().map(|(k, v)| format!("{}={}", hex(k), hex(v))).collect::<Vec<_>>().join(",");
+                if v.forward != vis { bad.push(format!("{}: forward scan [{}] expected [{}]", name, show(&v.forward), show(&vis))); }
+                let mut rev = vis.clone(); rev.reverse();
+                if v.backward != rev { bad.push(format!("{}: backward scan [{}] expected [{}]", name, show(&v.backward), show(&rev))); }
+                for (k, a) in keys.iter().zip(v.seeks.iter()) {
+                    let e = vis.iter().find(|(vk, _)| vk >= k).map(|(vk, _)| hx(vk)).unwrap_or("-".to_string());
+                    if *a != e { bad.push(format!("{}: seek({}) landed on {} expected {}", name, hex(k), a, e)); }
+                }
+                // zig-zag
+                let mut pos: i64 = 0;
+                let mut exp = vec![];
+                for mv in moves.chars() {
+                    if pos < 0 || pos >= vis.len() as i64 { break; }
+                    pos += if mv == 'n' { 1 } else { -1 };
+                    exp.push(if pos < 0 || pos >= vis.len() as i64 { "-".to_string() } else { hx(&vis[pos as usize].0) });
+                }
+                if v.zigzag != exp { bad.push(format!("{}: cursor walk {} gave [{}] expected [{}]", name, moves, v.zigzag.join(","), exp.join(","))); }
+            }
+            if bad.is_empty() { println!("REPLAY holds oracle=db_views views={}", views.len()); }
+            else { println!("REPLAY violated oracle=db_views {}", bad.join("; ")); }
         }
         // real TableBuilder + Table::get vs "newest entry of the user key at or below the bound"
         "table_get" => {
